@@ -240,6 +240,12 @@ def _slice(res, L, t, part):
                                         or (nbr >= 2 and nbc >= 2))
 
 
+def _div(a, b):
+    """IEEE quotient, as for slices: x/0 is +/-inf, 0/0 is NaN (a zero total of signed sums)."""
+    with np.errstate(divide="ignore", invalid="ignore"):
+        return float(np.float64(a) / np.float64(b))
+
+
 def _strand(res, L, part):
     o = L.oracle
     tr = L.case.get("transforms") or {}
@@ -256,7 +262,7 @@ def _strand(res, L, part):
     exp, judged = [], []
     for e in order:
         if e >= 0:
-            exp.append(base[e] / total if total else float("nan"))
+            exp.append(_div(base[e], total))
             judged.append(True)
         else:
             s = subs[e + len(subs)]
@@ -266,7 +272,7 @@ def _strand(res, L, part):
                 judged.append(False)
             else:
                 v = sum(base[a] for a in s["addends"]) - sum(base[a] for a in s["subtrahends"])
-                exp.append(v / total if total else float("nan"))
+                exp.append(_div(v, total))
                 judged.append(True)
     exp, judged = np.array(exp), np.array(judged, dtype=bool)
     if not res.check("strand_share", g.shape == exp.shape, "strand/share_sum/shape",
